@@ -116,7 +116,7 @@ def formatValue : List Nat → DType F → PVal F → Option Surf
   | pos, .tuple elems, v =>
     match PVal.seqItems? v with
     | some vs =>
-      (formatTuple pos 0 elems vs).map (fun ss => .paren ss (elems.length == 1))
+      (formatTuple pos 0 elems vs).map (fun ss => .paren ss (ss.length == 1))
     | none => none
   | pos, .struct members _ _, v =>
     match v with
